@@ -100,12 +100,24 @@ def r_transform_option(rule, root=None):
     got = {}
     for leaf, cs in A.value_cases(lets[0]["init"]):
         got[str(A.ftxt(leaf))] = [c.replace(" ", "") for c in cs]
-    ident = ("(settings.world_to_model==nalgebra::Matrix4::identity())", "(nalgebra::Matrix4::identity()==settings.world_to_model)")
+    def is_identity_test(c):
+        """+1: `world_to_model == identity`, -1: its negation, None: something else"""
+        neg = False
+        c = c.replace(" ", "")
+        while c.startswith("!"):
+            neg = not neg
+            c = c[1:]
+        c = _unparen(c)
+        m_ = re.fullmatch(r"(settings\.world_to_model|nalgebra::Matrix4::identity\(\)|Matrix4::identity\(\))(==|!=)(settings\.world_to_model|nalgebra::Matrix4::identity\(\)|Matrix4::identity\(\))", c)
+        if not m_ or (m_.group(1).startswith("settings")) == (m_.group(3).startswith("settings")):
+            return None
+        if m_.group(2) == "!=":
+            neg = not neg
+        return -1 if neg else 1
+
     none_c = got.get("None")
     some_c = got.get("Some(&settings.world_to_model)")
-    if none_c is not None and some_c is not None and len(none_c) == 1 and none_c[0] in ident and len(some_c) == 1 and some_c[0] in tuple("!" + i for i in ident):
+    if none_c is not None and some_c is not None and len(none_c) == 1 and len(some_c) == 1 and is_identity_test(none_c[0]) == 1 and is_identity_test(some_c[0]) == -1:
         rule.ok("evaluators get no transform exactly when world_to_model is the identity, and the matrix itself otherwise", file=OCT, line=lets[0]["ln"])
-    elif none_c is not None and some_c is not None and len(none_c) == 1 and none_c[0] in tuple("(settings.world_to_model!=nalgebra::Matrix4::identity())",) :
-        rule.bad("builder|transform-option", "OctreeBuilder::new drops the transform when it is NOT the identity", A.where(OCT, lets[0]))
     else:
         rule.bad("builder|transform-option", "OctreeBuilder::new must pass None only for the identity matrix and Some(&settings.world_to_model) otherwise; found %s" % got, A.where(OCT, lets[0]))
